@@ -6,6 +6,9 @@ import (
 	"fmt"
 	"os"
 	"strings"
+
+	"verifharness/internal/out"
+	"verifharness/internal/rng"
 )
 
 func main() {
@@ -13,12 +16,26 @@ func main() {
 	tier := flag.String("tier", "quick", "")
 	outDir := flag.String("out", "", "")
 	flag.Parse()
-	_ = tier
-	switch *mode {
-	case "probe":
+	if *mode == "probe" {
 		probe()
+		return
+	}
+	w := out.New(*outDir)
+	defer w.Close()
+	salt := map[string]uint64{"plan": 0x51, "engine": 0x52, "oracle": 0x53, "cli": 0x54}[*mode]
+	r := rng.FromEnv(salt)
+	dir, err := os.MkdirTemp("", "verif-sqlite-")
+	if err != nil {
+		panic(err)
+	}
+	defer os.RemoveAll(dir)
+	c := &ctx{w: w, r: r, g: &G{r: r}, thorough: *tier == "thorough", dir: dir}
+	switch *mode {
+	case "plan":
+		runPlan(c)
+	case "engine":
+		runEngine(c)
 	default:
-		_ = outDir
 		fmt.Fprintln(os.Stderr, "unknown mode", *mode)
 		os.Exit(2)
 	}
